@@ -3,7 +3,8 @@
    ring in which exactly the elements with a unit VALUE are units; the product carries the
    product rule in every component.  Hence every identity of such rings proved about the LU
    model holds, for uncertain-number elements, in value and in every component of uncertainty
-   at once.  The zero test of LU.py looks at the value only: on D it is not exact. *)
+   at once.  The zero test `x == 0.0` of LU.py looks at the value only: on D it is not exact
+   (D_zero_test_not_exact), which is why _lubksb's shortcut must not use it. *)
 From Coq Require Import ZArith List Bool Ring Lia FunctionalExtensionality.
 From GTCV Require Import Num LU LUFacts.
 Import ListNotations.
@@ -83,22 +84,26 @@ Section Dual.
   Variables (absw : D -> Wt) (w0 : Wt) (wgt wge : Wt -> Wt -> bool) (wmul : Wt -> Wt -> Wt)
             (wrecip : Wt -> res Wt).
   Variable ofZ : Z -> D.
-  Notation DE := (ring_elt D Wt dadd dmul dsub dinv disz ofZ absw w0 wgt wge wmul wrecip).
+  (* the test of _lubksb's shortcut: a plain-number zero.  Uncertain numbers never pass it
+     ([fun _ => false]); any test that only accepts true zeros will do *)
+  Variable dskip : D -> bool.
+  Hypothesis Hdskip : forall y, dskip y = true -> y = dO.
+  Notation DE := (ring_elt D Wt dadd dmul dsub dinv disz dskip ofZ absw w0 wgt wge wmul wrecip).
 
-  (* solving with uncertain elements: the defining equation holds in value (the plain system)
+  (* solving with uncertain elements, ANY right-hand side (zero values with uncertainty
+     included): the defining equation holds in value (the plain system)
      and, for every influence k, in the component of uncertainty (product rule on a.x) *)
   Theorem dual_solve_transfer n (a : nat -> nat -> D) (b x : nat -> D) :
     (forall lu idx par, ludcmp DE n a = Ok (lu, idx, par) -> decomposes D dO dI dadd dmul n a lu idx) ->
-    (forall j, (j < n)%nat -> disz (b j) = true -> b j = dO) ->
     solve DE n a b = Ok x ->
     forall i, (i < n)%nat ->
       bsum A 0 radd (fun j => dval (a i j) * dval (x j)) n = dval (b i) /\
       forall k, bsum A 0 radd (fun j => dval (a i j) * dcomp (x j) k + dval (x j) * dcomp (a i j) k) n
                 = dcomp (b i) k.
   Proof.
-    intros Hdec Hz H i Hi.
-    pose proof (solve_partial D Wt dO dI dadd dmul dsub dopp dinv disz ofZ absw w0 wgt wge wmul wrecip
-                              D_ring D_inv n a b x Hdec Hz H i Hi) as E.
+    intros Hdec H i Hi.
+    pose proof (solve_partial D Wt dO dI dadd dmul dsub dopp dinv disz dskip ofZ absw w0 wgt wge wmul wrecip
+                              D_ring D_inv Hdskip n a b x Hdec H i Hi) as E.
     split.
     - rewrite <- E. rewrite dval_bsum. reflexivity.
     - intros k. rewrite <- E. rewrite dcomp_bsum. reflexivity.
